@@ -482,7 +482,7 @@ FAMILIES["graph"] = dict(
     quick=dict(mc=[dict(nobj=3, caps="CapsG")],
                sim=[dict(nobj=4, caps="CapsG", num=500, simlen=9), dict(nobj=5, caps="CapsG", num=400, simlen=12),
                     dict(nobj=6, caps="CapsG", num=200, simlen=15)]),
-    thorough=dict(mc=[dict(nobj=3, caps="CapsG2"), dict(nobj=4, caps="CapsG6")],
+    thorough=dict(mc=[dict(nobj=3, caps="CapsG2"), dict(nobj=4, caps="CapsG7")],
                   sim=[dict(nobj=4, caps="CapsG", num=8000, simlen=10), dict(nobj=5, caps="CapsG", num=8000, simlen=13),
                        dict(nobj=6, caps="CapsG", num=6000, simlen=16), dict(nobj=8, caps="CapsG", num=3000, simlen=22)]))
 REQUIRED_ACTIONS["graph"] = ["StepMarkO", "OpEdge", "StepOrphan"]
